@@ -97,7 +97,6 @@ class CardanoShelley:
                                         self.m_bip_sk_obj.PublicKey().Bip32Key(),
                                         self.m_bip_obj.CoinConf())
 
-    @lru_cache()
     def PrivateKeys(self) -> CardanoShelleyPrivateKeys:
         """
         Return the private keys.
